@@ -1,3 +1,4 @@
+#include <unistd.h>
 #include "harness.h"
 
 #include <csetjmp>
@@ -62,6 +63,12 @@ RunRecord run_driver(const sim::Json& sc) {
     const bool optfile = kv.first.size() > 4 && kv.first.compare(kv.first.size() - 4, 4, ".opt") == 0;   // option files may name files: "@/" as in argv
     sim::write_file(sim::scratch_dir() + kv.first, optfile ? subst(kv.second.as_str()) : kv.second.as_str());
     rec.files_before[kv.first] = kv.second.as_str();
+  }
+
+  // symbolic links on the simulated disk: name -> target (both relative to the scratch directory)
+  for (auto& kv : sc["symlinks"].obj()) {
+    std::string from = sim::scratch_dir() + kv.first, to = sim::scratch_dir() + kv.second.as_str();
+    (void)!symlink(to.c_str(), from.c_str());
   }
 
   // ---- simulator configuration
